@@ -1603,7 +1603,7 @@ TIE = {
     'C07': [('SrcTieKernel', 'src_C01_'), ('E2ELine', 'whole_image_scale'), ('E2EWide', 'whole_image_scale_wide'), ('SrcTieGeom', 'src_C08_nan_equals'), ('SrcTieGeom', 'src_C08_mask_')],
     'C14': [('SrcTieCli', 'src_C12_'), ('SrcTieKernel', 'src_C14_'), ('SrcTieGeom', 'src_C14_'), ('SrcTieKernel', 'src_C01_'), ('SrcTieSched', 'src_C13_profiles'), ('E2EParam', 'param_valid_'), ('E2EParam', 'src_grid_corrected_is_param_applied')],
     'C11': [('SrcTieStats', 'src_C11_'), ('E2ECompare', 'compare_'), ('SrcTieKernel', 'src_C02_resampling'), ('SrcTieSched', 'src_C04_accumulate'), ('SrcTieGeom', 'src_C08_nan_equals')],
-    'C12': [('SrcTieCli', 'src_C12_'), ('StatsWindow', 'no_valid_pixel_skipped'), ('StatsWindow', 'dataWindow_contains'), ('StatsWindow', 'first_band_window_skips_counterexample'), ('SrcTieStats', 'src_C12_'), ('SrcTieSched', 'src_C04_accumulate')], 'C05': [('SrcTieCli', 'src_C01_kernel'), ('SrcTieCli', 'src_C01_accepted'), ('SrcTieGeom', 'src_C05_'), ('SrcTieGeom', 'src_C06_block'), ('SrcTieKernel', 'src_C01_'), ('E2E', 'block_transparent'), ('E2E', 'partitions_agree'),
+    'C12': [('SrcTieCli', 'src_C12_'), ('StatsWindow', 'no_valid_pixel_skipped'), ('StatsWindow', 'dataWindow_contains'), ('StatsWindow', 'first_band_window_skips_counterexample'), ('StatsE2E', 'stats_'), ('SrcTieStats', 'src_C12_'), ('SrcTieSched', 'src_C04_accumulate')], 'C05': [('SrcTieCli', 'src_C01_kernel'), ('SrcTieCli', 'src_C01_accepted'), ('SrcTieGeom', 'src_C05_'), ('SrcTieGeom', 'src_C06_block'), ('SrcTieKernel', 'src_C01_'), ('E2E', 'block_transparent'), ('E2E', 'partitions_agree'),
             ('E2ESrc', 'block_transparent_src_grid'), ('E2ESrc', 'partitions_agree_src_grid'), ('E2ESrc', 'correctedSrcGrid_eq_on'),
             ('E2EWide', 'block_transparent_wide'), ('E2EWide', 'block_mask_eq_whole_wide'), ('E2EParam', 'param_image_')],
     'C06': [('SrcTieGeom', 'src_C06_'), ('SrcTieGeom', 'src_C16_north_up'), ('SrcTieGeom', 'src_C16_same_orientation')], 'C16': [('SrcTieGeom', 'src_C16_')],
